@@ -1,29 +1,13 @@
 use crate::e2e;
-use bugstalker::debugger::address::RelocatedAddress;
-use bugstalker::debugger::register::debug::{BreakCondition, BreakSize};
-use bugstalker::debugger::variable::dqe::{Dqe, Selector};
 pub fn run(_: &[String]) -> i32 {
-    let bin = e2e::compile("/verif/.scratch/c14", "wpdebuggee", crate::leg_c14::DEBUGGEE, &[], None).unwrap();
-    let mut s = e2e::launch(&bin, &["p,w0,p".to_string()]).unwrap();
-    s.dbg.set_breakpoint_at_fn("phase").unwrap();
-    let r = s.dbg.start_debugee_with_reason();
-    println!("start: {:?}", r.map(|r| format!("{r:?}")));
-    s.wait_out("G=", 2000);
-    let out = s.stdout();
-    let g = out.lines().find_map(|l| l.strip_prefix("G=0x")).and_then(|h| u64::from_str_radix(h.trim(), 16).ok()).unwrap();
-    println!("frame -> {:?}", s.dbg.set_frame_into_focus(1));
-    let n = std::env::args().nth(2).and_then(|s| s.parse().ok()).unwrap_or(4);
-    for i in 0..n {
-        let r = s.dbg.set_watchpoint_on_memory(RelocatedAddress::from(g as usize + 8 * i), BreakSize::Bytes8, BreakCondition::DataWrites, false);
-        println!("add {i}: {:?}", r.map(|v| v.number));
-    }
-    let r = s.dbg.set_watchpoint_on_expr("loc", Dqe::Variable(Selector::by_name("loc", true)), BreakCondition::DataWrites);
-    println!("watch loc: {:?}", r.map(|v| v.number).map_err(|e| format!("{e:?}")));
-    println!("bps: {:?}", s.dbg.breakpoints_snapshot().iter().map(|b| (b.number, format!("{:?}", b.addr))).collect::<Vec<_>>());
-    println!("wps: {:?}", s.dbg.watchpoint_list().iter().map(|w| w.number).collect::<Vec<_>>());
-    for _ in 0..4 {
-        let r = s.dbg.continue_debugee_with_reason();
-        println!("cont: {:?} evs {:?}", r.map(|r| format!("{r:?}")), s.events.take());
+    let bin = std::path::PathBuf::from("/verif/.scratch/tmp/chain");
+    let mut s = e2e::launch(&bin, &[]).unwrap();
+    s.dbg.set_breakpoint_at_fn("anchor").unwrap();
+    s.dbg.start_debugee().unwrap();
+    let bt = s.dbg.backtrace(s.pid_now()).unwrap();
+    println!("frames: {}", bt.len());
+    for (k, f) in bt.iter().enumerate().take(22) {
+        println!("frame {k}: {:?} ip={:#x}", f.func_name, f.ip.as_usize());
     }
     0
 }
